@@ -154,6 +154,7 @@ type caseT struct {
 	datums  int
 	dtagged bool // datums as tag-258 set (Conway+)
 	table   int
+	extra   int // 0 none; 1+l = an additional reference input whose UTxO carries an UNRELATED reference script of language l (not needed by the transaction)
 }
 
 func langStr(l int) string {
@@ -178,7 +179,11 @@ func (k caseT) String() string {
 	if k.dtagged {
 		d += "(tag258)"
 	}
-	return fmt.Sprintf("%s/langs=%s/%s/redeemers=%s/datums=%s/table%d", EraNames[k.era], langStr(k.langs), pv, rfNames[k.rform], d, k.table)
+	ex := ""
+	if k.extra > 0 {
+		ex = fmt.Sprintf("/unneeded-ref-script=V%d", k.extra)
+	}
+	return fmt.Sprintf("%s/langs=%s/%s/redeemers=%s/datums=%s/table%d%s", EraNames[k.era], langStr(k.langs), pv, rfNames[k.rform], d, k.table, ex)
 }
 
 type world struct {
@@ -254,6 +259,17 @@ func (w *world) build(k caseT) *built {
 			}
 			refs = append(refs, ri.Node())
 		}
+	}
+	if k.extra > 0 {
+		l := k.extra - 1
+		other := append(append([]byte{}, w.scripts[l]...), 0xee) // a different script: its hash locks nothing in this transaction
+		ri := TxIn{FakeTxId("c31-unrelated-ref", w.seed), 7}
+		inner := space.A(space.U(uint64(l+1)), space.B(other)).Encode()
+		out := space.M(space.U(0), space.B(EnterpriseKeyAddr(0, w.keyA.Hash)), space.U(1), space.U(3_000_000), space.U(3), space.Tag(24, space.B(inner)))
+		if err := b.stub.AddUtxo(k.era, ri, out); err != nil {
+			chk.Internal("stub ref utxo: %v", err)
+		}
+		refs = append(refs, ri.Node())
 	}
 	if len(refs) > 0 {
 		s.ExtraBody = append(s.ExtraBody, space.U(18), space.A(refs...))
@@ -441,7 +457,15 @@ func main() {
 								continue
 							}
 							for t := 0; t < 2; t++ {
-								jobs = append(jobs, caseT{era, langs, pv, rf, d, tg, t})
+								jobs = append(jobs, caseT{era, langs, pv, rf, d, tg, t, 0})
+								// unrelated reference script of a language the transaction does not use (Babbage+)
+								if era >= EraBabbage {
+									for l := 0; l < nl; l++ {
+										if langs&(1<<l) == 0 {
+											jobs = append(jobs, caseT{era, langs, pv, rf, d, tg, t, 1 + l})
+										}
+									}
+								}
 							}
 						}
 					}
@@ -508,7 +532,9 @@ func main() {
 		default:
 			what := declNames[decl]
 			comp := "langs=" + langStr(k.langs)
-			if variant != "" {
+			if k.extra > 0 {
+				comp = "unneeded-reference-script"
+			} else if variant != "" {
 				comp = "re-encoded-container"
 			} else if b.nRed == 0 {
 				comp = "redeemers=" + rfNames[k.rform]
@@ -523,7 +549,7 @@ func main() {
 		tl.mu.Unlock()
 		c.Violation(key, fmt.Sprintf("%s %s declared=%s (%x): script-data-hash rule passes; required=%v, specified hash=%x", k, variant, declNames[decl], declared, required, exp),
 			map[string]any{"era": k.era, "langs": k.langs, "prov": k.prov, "rform": k.rform, "datums": k.datums, "dtagged": k.dtagged, "table": k.table,
-				"variant": variant, "declared_kind": decl, "declared": hex.EncodeToString(declared), "tx_cbor": hex.EncodeToString(txb)})
+				"extra": k.extra, "variant": variant, "declared_kind": decl, "declared": hex.EncodeToString(declared), "tx_cbor": hex.EncodeToString(txb)})
 	}
 
 	runCase := func(k caseT, b *built, variant string, canonicalHash []byte) {
@@ -562,8 +588,8 @@ func main() {
 		b := w.build(k)
 		runCase(k, b, "", nil)
 		// re-encodings (d=1) of the redeemers and datums containers: the hash must follow the ORIGINAL bytes
-		if b.redeemers == nil && b.datums == nil {
-			return
+		if (b.redeemers == nil && b.datums == nil) || k.extra > 0 {
+			return // (the unrelated-reference-script dimension does not touch the containers: no re-encodings there)
 		}
 		if !c.Thorough() && k.table == 1 {
 			return // quick: re-encodings with cost-model table 0 only (the table does not interact with container bytes)
@@ -609,7 +635,7 @@ func replayOne(c *vlib.Check, w *world) {
 	}
 	var f struct {
 		Replay struct {
-			Era, Langs, Prov, Rform, Datums, Table int
+			Era, Langs, Prov, Rform, Datums, Table, Extra int
 			Dtagged                                bool
 			Variant                                string
 			Declared                               string
@@ -620,7 +646,7 @@ func replayOne(c *vlib.Check, w *world) {
 		c.Internal("replay: %v", err)
 	}
 	r := f.Replay
-	k := caseT{r.Era, r.Langs, r.Prov, r.Rform, r.Datums, r.Dtagged, r.Table}
+	k := caseT{r.Era, r.Langs, r.Prov, r.Rform, r.Datums, r.Dtagged, r.Table, r.Extra}
 	b := w.build(k)
 	env := NewEraEnv(k.era)
 	tab := costTables(k.table)
